@@ -222,7 +222,7 @@ def dedicated(ctx, rng):
 
 
 def run(ctx):
-    for _, rng in ctx.cases("programs", ctx.n(1200, 30000)):
+    for _, rng in ctx.cases("programs", ctx.budget(28000, 550000)):
         ctx.run_case(run_program, ctx, rng)
-    for _, rng in ctx.cases("dedicated", ctx.n(900, 20000)):
+    for _, rng in ctx.cases("dedicated", ctx.budget(21000, 400000)):
         ctx.run_case(dedicated, ctx, rng)
